@@ -2,35 +2,37 @@
   C04 — sub-formula caching and batch evaluation are observationally transparent.
 -/
 import HctlProofs.Lemmas.CacheMain
+import HctlProofs.Lemmas.KeyProof
 import HctlModel.Api
 namespace Hctl.C04
 open Hctl Kripke
 
-variable {E : Env} (hE : EnvOK E) (hG : GraphWF E.G) {K : SemCtx} (hK : CtxOK E K) {U0 : CSet}
-  (hKS : KeySem E K U0) (hKW : KeyWild E K U0) (hA : C12.GraphAsync E.G)
-include hE hG hK hKS hKW hA
+variable {C : CharClass} {E : Env} (hE : EnvOK E) (hG : GraphWF E.G) {K : SemCtx} (hK : CtxOK E K) {U0 : CSet}
+  (hC : Lex.CharsOK C) (hSC : CtxSC K) (hU0 : ∀ p ∈ E.pts, ∀ i t, t < E.G.nS → U0 (p.setV i t) = U0 p)
+  (hA : C12.GraphAsync E.G)
+include hE hG hK hC hSC hU0 hA
 
 /-- MAIN (one call, any history): from EVERY context satisfying the cache invariant — i.e. after any sequence of
 previous evaluations, with any duplicate counters — `eval_node` returns exactly the satisfaction set of its
 formula, leaves the invariant intact and restores `free_var_domains`. -/
 theorem cache_transparent (t : Tree) (U : CSet) (ds : List (Option Name)) (ctx : ECtx)
-    (hq : GoodQ E K U0 t U ds) (hf : ctx.fvd = fvdOf ds) (hc : CacheOK E K U0 ctx) :
+    (hq : GoodQ C E K U0 t U ds) (hf : ctx.fvd = fvdOf ds) (hc : CacheOK C E K U0 ctx) :
     ∃ r ctx', Eval.evalNode E (Ops.steadyOf E U0) t U ctx = .ok (r, ctx') ∧
-      Sem E r U (sat E.G K t) ∧ CacheOK E K U0 ctx' ∧ ctx'.fvd = ctx.fvd :=
-  evalNode_sound hE hG hK hKS hKW hA t U ds ctx hq hf hc
+      Sem E r U (sat E.G K t) ∧ CacheOK C E K U0 ctx' ∧ ctx'.fvd = ctx.fvd :=
+  evalNode_sound hE hG hK (keySem_holds hC hE hG hK hSC hU0) (keyWild_holds hC E K U0) hA t U ds ctx hq hf hc
 
 /-- … hence it equals the cache-free evaluator (sharing disabled) -/
 theorem cached_eq_pure (t : Tree) (U : CSet) (ds : List (Option Name)) (ctx : ECtx)
-    (hq : GoodQ E K U0 t U ds) (hf : ctx.fvd = fvdOf ds) (hc : CacheOK E K U0 ctx) :
+    (hq : GoodQ C E K U0 t U ds) (hf : ctx.fvd = fvdOf ds) (hc : CacheOK C E K U0 ctx) :
     ∃ r ctx', Eval.evalNode E (Ops.steadyOf E U0) t U ctx = .ok (r, ctx') ∧
       EqOn E.pts r (Eval.evalPure E (Ops.steadyOf E U0) K.wild K.dom t U) := by
-  obtain ⟨r, ctx', he, hs, _, _⟩ := cache_transparent hE hG hK hKS hKW hA t U ds ctx hq hf hc
+  obtain ⟨r, ctx', he, hs, _, _⟩ := cache_transparent hE hG hK hC hSC hU0 hA t U ds ctx hq hf hc
   exact ⟨r, ctx', he, hs.eqOn (evalPure_correct hE hG K hK U0 _ t ds.length U hq.wscoped.wellNamed hq.domsIn hq.unit)⟩
 
 /-- MAIN (batches): folding `eval_node` over a list of formulae with ONE threaded context returns, position by
 position, the exact satisfaction sets — whatever the initial invariant-satisfying context was. -/
-theorem batch_sound : ∀ (trees : List Tree) (ctx : ECtx), (∀ t ∈ trees, GoodQ E K U0 t U0 []) → ctx.fvd = [] →
-    CacheOK E K U0 ctx →
+theorem batch_sound : ∀ (trees : List Tree) (ctx : ECtx), (∀ t ∈ trees, GoodQ C E K U0 t U0 []) → ctx.fvd = [] →
+    CacheOK C E K U0 ctx →
     ∃ rs, Api.evalAll E (Ops.steadyOf E U0) U0 trees ctx = .ok rs ∧ rs.length = trees.length ∧
       ∀ i (hi : i < trees.length) (hi' : i < rs.length), Sem E rs[i] U0 (sat E.G K trees[i]) := by
   intro trees
@@ -39,7 +41,7 @@ theorem batch_sound : ∀ (trees : List Tree) (ctx : ECtx), (∀ t ∈ trees, Go
   | cons t ts ih =>
     intro ctx hq hf hc
     obtain ⟨r, ctx', he, hs, hc', hf'⟩ :=
-      evalNode_sound hE hG hK hKS hKW hA t U0 [] ctx (hq t (by simp)) (by simpa [fvdOf, fvdFrom] using hf) hc
+      evalNode_sound hE hG hK (keySem_holds hC hE hG hK hSC hU0) (keyWild_holds hC E K U0) hA t U0 [] ctx (hq t (by simp)) (by simpa [fvdOf, fvdFrom] using hf) hc
     obtain ⟨rs, hev, hlen, hall⟩ := ih ctx' (fun t' ht' => hq t' (by simp [ht'])) (hf'.trans hf) hc'
     refine ⟨r :: rs, by simp [Api.evalAll, he, hev], by simp [hlen], ?_⟩
     intro i hi hi'
@@ -50,14 +52,14 @@ theorem batch_sound : ∀ (trees : List Tree) (ctx : ECtx), (∀ t ∈ trees, Go
 /-- two batch evaluations (different orders, repetitions, different duplicate counters, different initial
 caches) agree on every formula they have in common -/
 theorem batch_results_agree (trees1 trees2 : List Tree) (ctx1 ctx2 : ECtx)
-    (hq1 : ∀ t ∈ trees1, GoodQ E K U0 t U0 []) (hq2 : ∀ t ∈ trees2, GoodQ E K U0 t U0 [])
-    (hf1 : ctx1.fvd = []) (hf2 : ctx2.fvd = []) (hc1 : CacheOK E K U0 ctx1) (hc2 : CacheOK E K U0 ctx2) :
+    (hq1 : ∀ t ∈ trees1, GoodQ C E K U0 t U0 []) (hq2 : ∀ t ∈ trees2, GoodQ C E K U0 t U0 [])
+    (hf1 : ctx1.fvd = []) (hf2 : ctx2.fvd = []) (hc1 : CacheOK C E K U0 ctx1) (hc2 : CacheOK C E K U0 ctx2) :
     ∃ rs1 rs2, Api.evalAll E (Ops.steadyOf E U0) U0 trees1 ctx1 = .ok rs1 ∧
       Api.evalAll E (Ops.steadyOf E U0) U0 trees2 ctx2 = .ok rs2 ∧
       ∀ i j (hi : i < trees1.length) (hj : j < trees2.length) (hi' : i < rs1.length) (hj' : j < rs2.length),
         trees1[i] = trees2[j] → EqOn E.pts rs1[i] rs2[j] := by
-  obtain ⟨rs1, he1, _, h1⟩ := batch_sound hE hG hK hKS hKW hA trees1 ctx1 hq1 hf1 hc1
-  obtain ⟨rs2, he2, _, h2⟩ := batch_sound hE hG hK hKS hKW hA trees2 ctx2 hq2 hf2 hc2
+  obtain ⟨rs1, he1, _, h1⟩ := batch_sound hE hG hK hC hSC hU0 hA trees1 ctx1 hq1 hf1 hc1
+  obtain ⟨rs2, he2, _, h2⟩ := batch_sound hE hG hK hC hSC hU0 hA trees2 ctx2 hq2 hf2 hc2
   refine ⟨rs1, rs2, he1, he2, ?_⟩
   intro i j hi hj hi' hj' heq
   have a := h1 i hi hi'
@@ -65,18 +67,18 @@ theorem batch_results_agree (trees1 trees2 : List Tree) (ctx1 ctx2 : ECtx)
   rw [heq] at a
   exact a.eqOn b
 
-omit hK hKS hKW hA in
+omit hK hC hSC hU0 hA in
 /-- with an empty context (no wild-cards) ANY duplicate map whose keys have at most one variable gives an
 invariant-satisfying initial context; the empty map (sharing disabled) trivially so -/
 theorem init_cacheOK_plain (D : DupMap)
-    (hD : ∀ key n, dupGet key D = some n → ∀ t U ds ren, GoodQ E noCtx U0 t U ds →
+    (hD : ∀ key n, dupGet key D = some n → ∀ t U ds ren, GoodQ C E noCtx U0 t U ds →
       keyOf t (fvdOf ds) = (key, ren) → ren.length ≤ 1) :
-    CacheOK E noCtx U0 { dups := D } :=
+    CacheOK C E noCtx U0 { dups := D } :=
   ⟨fun _ _ _ h => by simp [cacheGet] at h, fun _ _ h => by simp [noCtx, noCtx'] at h,
    fun _ _ h => by simp [noCtx, noCtx'] at h, hD⟩
 
-omit hK hKS hKW hA in
-theorem init_cacheOK_noSharing : CacheOK E noCtx U0 { dups := [] } :=
+omit hK hC hSC hU0 hA in
+theorem init_cacheOK_noSharing : CacheOK C E noCtx U0 { dups := [] } :=
   init_cacheOK_plain hE hG [] (fun _ _ h => by simp [dupGet] at h)
 
 end Hctl.C04
